@@ -19,7 +19,7 @@ acc C05-whitespace-only-font-family-measure-text C05 font-family,measure-text '*
 acc C05-anyuri-unchecked C05 xs:anyURI '*' "xs:anyURI accepts any string (no lexical check)"
 acc C05-language-pattern-narrower-than-xsd C05 xs:language '*' "xs:language is modelled by the RFC-1766 pattern of xml.xsd: language tags valid for XML Schema (1-8 letter primary tag) are refused"
 acc C05-date-day-of-month C05 yyyy-mm-dd,xs:date '*' "dates are validated by a regular expression only: 2000-02-30 is accepted"
-acc C06-duplicated-sequence-remove-then-add C06 interchangeable,time '*' "time / interchangeable: after removing a child of a repeated (beats, beat-type) group, a re-added child is missing from the ordered view and the output"
+acc C06-duplicated-sequence-remove-then-add C06 interchangeable,time,credit,lyric '*' "time / interchangeable / credit / lyric: after removing a child of a repeated group (duplicated container), a remaining or re-added child is missing from the ordered view and the output"
 acc C06-note-ties-then-grace C06 note '*' "note: add(tie), add(tie), add(grace): the intelligent-choice re-attachment drops one tie from the ordered view and the output"
 acc C10-metronome-refused-serialisation C10 metronome '*' "metronome: a refused to_string changes the later verdict / acceptance"
 acc C10-failed-replace-readds-old-child C10 credit,lyric,listen,notehead-text,harmony,key,note,part-list,score-part,sound,time,interchangeable,ornaments,direction-type '*' "a refused call that went through remove-and-re-add or duplication (different-name replace_child, wrong forward) leaves matcher flags that change later acceptance"
